@@ -104,7 +104,7 @@ package ipfslog
 //@   requires l.Clock.(*entry.LamportClock).Time < 4611686018427387904 && (forall k string :: has(om(l.heads).values, k) ==> etime(om(l.heads).values[k]) < 4611686018427387904)
 //@   lockrequires noLocksHeld()
 //@   requires [log-blocks-are-stored] storedLog(l)
-//@   modifies l.Clock, l.heads, om(l.Entries).keys, mapof(om(l.Entries).values), om(l.Next).keys, mapof(om(l.Next).values), stored, lastAdded, addCount
+//@   modifies l.Clock, l.heads, om(l.Entries).keys, mapof(om(l.Entries).values), om(l.Next).keys, mapof(om(l.Next).values), stored, lastAdded, addCount, lastWrapped
 //@   ensures logInv(l)
 //@   ensures [log-blocks-are-stored-on-every-exit] storedLog(l)
 //@   ensures [store-only-grows] forall c cid :: old(stored[c]) ==> stored[c]
@@ -239,7 +239,7 @@ package ipfslog
 //@ func toMultihash
 //@   requires logInv(log) && services != nil
 //@   requires [log-blocks-are-stored] storedLog(log)
-//@   modifies stored, lastAdded, addCount
+//@   modifies stored, lastAdded, addCount, lastWrapped
 //@   ensures [publication-writes-the-manifest-of-the-current-heads] err == nil ==> stored[result0] && result0 == lastAdded && addCount == old(addCount) + 1
 //@   ensures [store-only-grows] forall c cid :: old(stored[c]) ==> stored[c]
 //@   replay racelog
@@ -248,7 +248,7 @@ package ipfslog
 //@ func (*IPFSLog).ToMultihash
 //@   requires logInv(l) && storedLog(l)
 //@   lockrequires noLocksHeld()
-//@   modifies stored, lastAdded, addCount
+//@   modifies stored, lastAdded, addCount, lastWrapped
 //@   ensures [publication-writes-the-manifest-of-the-current-heads] err == nil ==> stored[result0] && result0 == lastAdded && addCount == old(addCount) + 1
 //@   ensures [store-only-grows] forall c cid :: old(stored[c]) ==> stored[c]
 
